@@ -17,6 +17,54 @@ PU = "ruma_common::push::"
 KINDS = [("override_", "Override"), ("content", "Content"), ("room", "Room"), ("sender", "Sender"), ("underride", "Underride")]
 
 
+def escape_loop_shape(w, f):
+    """escape_key written as one pass over key.chars(): with the loop unrolled once, a key of exactly one character c must produce `\\\\` for a
+    backslash, `\\.` for a dot and c itself otherwise, consuming exactly one character per iteration. Returns (ok, explanation)."""
+    dex = D.Dex(w.lookup, adt_discr=w.adt_discr, unroll=1, effects=lambda n: n.endswith(("String::push", "String::push_str")) or re.search(r"(^|::)next$", n) is not None)
+    try:
+        paths = dex.paths(f, [D.sym("key")])
+    except D.Unrecognised as e:
+        return False, f"escape_key has neither the two replace calls nor a recognisable character loop ({e})"
+    seen = {}
+    for p in paths:
+        if p.kind != "ret":
+            continue
+        conds = [(D.show_atom(a), t) for a, t in p.conds]
+        nexts = [e for e in p.effects if e[0].rsplit("::", 1)[-1] == "next"]
+        if not nexts:
+            # a shortcut that returns the key as it is: only when the key contains neither special character
+            sc = [a for a, t in conds if re.match(r"^str::contains\(key, ", a) and not t]
+            if len(sc) == 1 and set(re.findall(r"'((?:\\\\)|[^'])'", sc[0])) >= {".", "\\\\"}:
+                continue
+            return False, f"escape_key returns without looking at the characters under {conds[:2]}"
+        if not any(re.search(r"next\(.*\)#2 is None$", a) and t for a, t in conds):
+            continue                                   # more than one character: covered by the one-character paths, the loop body is the same
+        if len(nexts) != 2:
+            return False, f"one loop iteration consumes {len(nexts) - 1} characters (a character after a backslash is copied without being escaped)"
+        first = next((re.sub(r" is Some$", "", a) for a, t in conds if re.search(r"next\([^#]*\) is Some$", a) and t), None)
+        cls = "other"
+        for a, t in conds:
+            m = re.fullmatch(re.escape(first or "?") + r"\.Some\.0==(\d+)", a)
+            if m and t:
+                cls = {92: "backslash", 46: "dot"}.get(int(m.group(1)), "other:" + m.group(1))
+        out = ""
+        for e in p.effects:
+            if e[0].rsplit("::", 1)[-1] in ("push", "push_str"):
+                v = e[1][1]
+                if D.is_const(v):
+                    out += v[1] if isinstance(v[1], str) else chr(v[1])
+                elif first and D.show(v) == first + ".Some.0":
+                    out += {"backslash": "\\", "dot": "."}.get(cls, "<c>")
+                else:
+                    out += "<?>"
+        seen[cls] = out
+    want = {"backslash": "\\\\", "dot": "\\.", "other": "<c>"}
+    got = {k: seen.get(k) for k in want}
+    if got != want:
+        return False, f"a one-character key is escaped as {got}, expected {want}"
+    return True, "single pass over chars(): backslash -> two backslashes, dot -> backslash dot, one character consumed per iteration"
+
+
 def run(ctx):
     fx = ctx.facts("A")
     w = W.World(fx, ["ruma_common"])
@@ -212,7 +260,11 @@ def run(ctx):
         (f1, t1, r1), (f2, t2, r2) = reps
         # the second replace works on the result of the first
         good = f1 == "\\" and f2 == "." and t1 == "\\\\" and t2 == "\\." and "<impl str>::replace" in str(r2) and r1 == ("arg", 1)
-    ctx.check(good, "C12.escape", "C12.escape:order", w.where(f), bad_msg=f"replace calls (from, to) in order: {[(r[0], r[1]) for r in reps]}")
+    if not reps:
+        good, why = escape_loop_shape(w, f)          # a hand-written single pass over the characters
+        ctx.check(good, "C12.escape", "C12.escape:order", w.where(f), ok_msg=why, bad_msg=why)
+    else:
+        ctx.check(good, "C12.escape", "C12.escape:order", w.where(f), bad_msg=f"replace calls (from, to) in order: {[(r[0], r[1]) for r in reps]}")
     ff = w.fn(PU + "condition::flattened_json::FlattenedJson::flatten_value")
     tmpl = []
     for body in M.all_bodies(ff):
@@ -247,7 +299,7 @@ def run(ctx):
         fj = w.fn(fname)
         short = fname.rsplit("::", 2)[-2]
         try:
-            ps = D.Dex(w.lookup, adt_discr=w.adt_discr, unroll=1).paths(fj, [D.sym("val")])
+            ps = D.Dex(w.lookup, adt_discr=w.adt_discr, unroll=1, ctors=w.ctors).paths(fj, [D.sym("val")])
         except D.Unrecognised as e:
             ctx.unrecognised("C12.flatten", f"C12.flatten:{short}", w.where(fj), str(e))
             continue
